@@ -14,6 +14,7 @@ R-C10-5 is T3: the prologue slice defining the rule clock is evaluated on 9 (pre
 R-C10-6 is T2 (c04.registration_rules): path enumeration of _get_control_managers with the control type fixed; registrations must agree on all paths.
 """
 import ast
+import copy
 
 from ..src import walk, calls, call_name, last_attr, dotted, norm, loc, const, AnchorError, ExtractError, parent, unparse
 from ..cfg import CFG
@@ -441,6 +442,32 @@ def find_flag(prologue, loop):
     raise ExtractError("run_sim: the one-shot first-step flag was not found (candidates: %s)" % cand)
 
 
+def _canonical_time_loop(loop):
+    """`while COND: BODY` (COND not the constant True, no else) is read as `while True: if not (COND): break; BODY; if not (COND): break` -- the form run_sim has on
+    the pinned tree (a head exit for a run that has nothing left to do, an exit after the time advance).  The two forms are the same loop: after BODY control
+    returns to the head, where COND is evaluated; evaluating it once more at the end of BODY changes nothing as long as COND only reads state (it is built from
+    attribute reads and comparisons here).  Done on the parsed tree of this run only."""
+    t = loop.test
+    if (isinstance(t, ast.Constant) and t.value is True) or loop.orelse:
+        return
+    if any(isinstance(n, (ast.Call, ast.NamedExpr, ast.Await, ast.Yield)) for n in ast.walk(t)):
+        return                     # a condition that calls something may have effects: left as it is (the exit analysis then reports what it cannot see)
+
+    def guard():
+        g_ = ast.If(test=ast.UnaryOp(op=ast.Not(), operand=copy.deepcopy(t)), body=[ast.Break()], orelse=[])
+        ast.copy_location(g_, loop)
+        ast.fix_missing_locations(g_)
+        for n in ast.walk(g_):
+            for c in ast.iter_child_nodes(n):
+                if not isinstance(c, (ast.expr_context, ast.operator, ast.unaryop, ast.boolop, ast.cmpop)):
+                    c._parent = n
+        g_._parent = loop
+        return g_
+    loop.body = [guard()] + list(loop.body) + [guard()]
+    loop.test = ast.copy_location(ast.Constant(value=True), t)
+    loop.test._parent = loop
+
+
 def run(repo, chk):
     sim = repo.cls(CORE, "WNTRSimulator")
     base = repo.cls(CORE, "WaterNetworkSimulator")
@@ -460,6 +487,7 @@ def run(repo, chk):
     if len(loops) != 1:
         raise ExtractError("run_sim: expected exactly one top-level while loop, found %d" % len(loops))
     loop = loops[0]
+    _canonical_time_loop(loop)
     prologue = rs.body[:rs.body.index(loop)]
     pro_mod = ast.Module(body=prologue, type_ignores=[])
     loop_mod = ast.Module(body=loop.body, type_ignores=[])
